@@ -8,7 +8,11 @@ ROOT=/verif
 VP=$ROOT/target/release/vp
 SEED=${VERIF_SEED:-1}; [ "$SEED" = "0" ] && SEED=1
 # libFuzzer wants a 32-bit seed
-SEED=$(python3 -c "print(abs(int('$SEED')) % 4294967295 + 1)")
+SEED=$(python3 -c "
+try:
+    print(abs(int('$SEED'.strip())) % 4294967295 + 1)
+except Exception:
+    print(20260927 % 4294967295 + 1)")
 RUNS=${VP_FUZZ_RUNS:-600000}
 viol=0
 items=""
